@@ -183,6 +183,9 @@ def run(prop, tier, replay):
         "samples": [{"script": allscripts[0]}, {"cycle_event": sample[0] if sample else None}],
         "exhaustive": False,
     }
+    if prop == "C08" and not replay:
+        from checks.resfault import resfault_stage
+        cov.update(resfault_stage(rep, tier, work))
     return rep.finish(cov, assumptions=[
         "the logging IoDriver and the generated ST programs are the only instrumentation; everything below Runtime/TestHarness is real",
         "design-level invariants are checked on MCRuntimeCycle for the constants in the .cfg file",
